@@ -17,7 +17,9 @@
 package json
 
 import (
+	"math"
 	"runtime"
+	"strconv"
 	"unsafe"
 
 	"github.com/cloudwego/dynamicgo/internal/native/types"
@@ -73,6 +75,15 @@ func EncodeString(buf []byte, val string) []byte {
 func EncodeInt64(buf []byte, val int64) []byte {
 	i64toa(&buf, val)
 	return buf
+}
+
+// EncodeUint64 appends the decimal form of an unsigned value.
+// Values above math.MaxInt64 must not go through EncodeInt64, which would print them as negative numbers.
+func EncodeUint64(buf []byte, val uint64) []byte {
+	if val <= math.MaxInt64 {
+		return EncodeInt64(buf, int64(val))
+	}
+	return strconv.AppendUint(buf, val, 10)
 }
 
 func EncodeFloat64(buf []byte, val float64) []byte {
